@@ -80,7 +80,11 @@ def with_restarts(steps, positions, salt=0):
     out = list(steps)
     for p in sorted(positions, reverse=True):
         dt = DOWNTIMES[(p + salt) % len(DOWNTIMES)]
-        out.insert(p, ["restart", dt] if dt else ["restart"])
+        if (p + 2 * salt) % 7 == 3:
+            # the first start attempt dies (port still taken) after the state was loaded
+            out.insert(p, ["restart", dt, 1])
+        else:
+            out.insert(p, ["restart", dt] if dt else ["restart"])
     return out
 
 
